@@ -288,7 +288,8 @@ func runJobs(jobs []Job) []*JobResult {
 					*wp = startWorker(bin, w, j.Race)
 				}
 				res := (*wp).run(j)
-				if res.Err != "" && (*wp).dead {
+				if (*wp).dead {
+					(*wp).stop()
 					*wp = nil
 				}
 				results[i] = res
@@ -344,7 +345,13 @@ func startWorker(bin string, w int, race bool) *workerProc {
 }
 
 func (w *workerProc) stop() {
-	if w == nil || w.cmd == nil {
+	if w == nil {
+		return
+	}
+	if w.curFile != "" {
+		_ = os.Remove(w.curFile)
+	}
+	if w.cmd == nil || w.cmd.Process == nil {
 		return
 	}
 	_ = w.cmd.Process.Kill()
@@ -446,14 +453,7 @@ func raceKey(report string) string {
 					break
 				}
 				if strings.Contains(f, "ristretto") && !strings.HasPrefix(f, "/") {
-					if p := strings.LastIndex(f, "/"); p >= 0 {
-						f = f[p+1:]
-					}
-					if p := strings.Index(f, "("); p >= 0 {
-						f = f[:p]
-					}
-					f = strings.ReplaceAll(f, "[...]", "")
-					fns = append(fns, f)
+					fns = append(fns, funcName(f))
 					break
 				}
 			}
@@ -464,6 +464,23 @@ func raceKey(report string) string {
 		fns = fns[:2]
 	}
 	return strings.Join(fns, "+")
+}
+
+// funcName reduces a stack-trace function line such as
+// "github.com/dgraph-io/ristretto/v2.(*defaultPolicy[...]).Cap()" to "(*defaultPolicy).Cap".
+func funcName(l string) string {
+	l = strings.TrimSpace(l)
+	if p := strings.LastIndex(l, "("); p > 0 {
+		l = l[:p]
+	}
+	if p := strings.LastIndex(l, "/"); p >= 0 {
+		l = l[p+1:]
+	}
+	if p := strings.Index(l, "."); p >= 0 {
+		l = l[p+1:]
+	}
+	l = strings.ReplaceAll(l, "[...]", "")
+	return l
 }
 
 func raceSummary(report string) string {
@@ -660,13 +677,7 @@ func panicKey(detail string) string {
 	for _, l := range strings.Split(detail, "\n") {
 		l = strings.TrimSpace(l)
 		if strings.Contains(l, "ristretto/v2") && !strings.HasPrefix(l, "/") {
-			if p := strings.LastIndex(l, "/"); p >= 0 {
-				l = l[p+1:]
-			}
-			if p := strings.Index(l, "("); p >= 0 {
-				l = l[:p]
-			}
-			return strings.ReplaceAll(l, "[...]", "")
+			return funcName(l)
 		}
 	}
 	return "unknown"
